@@ -89,9 +89,10 @@ theorem safe_callables_no_effect (base : List String) (all : List SafeCalls.Def)
    SafeCalls.startNames_not_defined base all stores otherBound n⟩
 
 /-- non-vacuity: `f` is pure and calls the pure `g`; `h` prints; `k` is defined twice, once with an effect; `len` is
-redefined by the module -/
+redefined by the module; `traced` has a pure body but a decorator -/
 example : SafeCalls.safeNames ["len", "abs"]
-    [⟨"f", false, ["g", "abs"]⟩, ⟨"g", false, []⟩, ⟨"h", true, []⟩, ⟨"k", false, []⟩, ⟨"k", true, []⟩, ⟨"len", true, []⟩] [] []
+    [⟨"f", false, ["g", "abs"], false⟩, ⟨"g", false, [], false⟩, ⟨"h", true, [], false⟩, ⟨"k", false, [], false⟩, ⟨"k", true, [], false⟩,
+     ⟨"len", true, [], false⟩, ⟨"traced", false, [], true⟩] [] []
     = ["f", "g", "abs"] := by decide
 
 end C16
